@@ -187,6 +187,9 @@ func (g GJ) Flatten() []P2 {
 		}
 	case "Bounds":
 		mn, mx := g.Pts[0], g.Pts[1]
+		if mx[0] < mn[0] || mx[1] < mn[1] {
+			return nil // a box that holds no point has no corners
+		}
 		out = []P2{mn, {mx[0], mn[1]}, mx, {mn[0], mx[1]}}
 	}
 	return out
